@@ -18,7 +18,6 @@ from liquid.exceptions import LiquidSyntaxError
 from liquid.parser import get_parser
 from liquid.stream import TokenStream
 from liquid.tag import Tag
-from liquid.token import TOKEN_EOF
 from liquid.token import TOKEN_EXPRESSION
 from liquid.token import TOKEN_ILLEGAL
 from liquid.token import TOKEN_TAG
@@ -111,16 +110,14 @@ class LiquidTag(Tag):
 
     def parse(self, stream: TokenStream) -> Node:
         """Parse tokens from _stream_ into an AST node."""
-        token = stream.eat(TOKEN_TAG)
+        token = stream.expect(TOKEN_TAG)
         token_: Optional[Token] = None
 
-        if stream.current.kind == TOKEN_EOF:
-            # Empty liquid tag. Empty block.
+        if stream.peek.kind != TOKEN_EXPRESSION:
+            # Empty liquid tag. Empty block. Whatever follows is not part of it.
             block = BlockNode(token, [])
-        elif stream.current.kind == TOKEN_TAG:
-            parser = get_parser(self.env)
-            block = parser.parse_block(stream, end=())
         else:
+            next(stream)
             token_ = stream.expect(TOKEN_EXPRESSION)
             block = get_parser(self.env).parse_block(
                 TokenStream(
